@@ -1,6 +1,7 @@
 """props.py — per-property specifications for check.py: theorem files, generators,
 projection compared between model and implementation, direct oracle."""
 import glob
+import re
 import json
 import os
 import hashlib
@@ -33,7 +34,7 @@ def load_corpus(pid):
 
 
 HOOK_COMMITS = ["29e0810", "739e797", "cf39cf9", "652b91e", "e71d18b", "87e24fd", "a0b177c", "d307356", "a2cf7a8", "32ea923",
-                "c3212bb", "2017279", "f82d6ac", "f4f6e91", "3d9871e", "eae7527", "430b815", "50578be", "8cabe9e", "dbfd1e8", "b5be554", "2061294", "5e81022"]
+                "c3212bb", "2017279", "f82d6ac", "f4f6e91", "3d9871e", "eae7527", "430b815", "50578be", "8cabe9e", "dbfd1e8", "b5be554", "2061294", "5e81022", "fbbe690"]
 NOT_CLAIMED = {}
 
 
@@ -326,7 +327,7 @@ class C06(ResolveSpec):
     level_note = "as C01. The load-time cap on wildcard end dates is covered under C15's validate model."
     design_ref = 'DESIGN.md §4 C06'
     coq_files = ["Properties/C06.v"]
-    theorems = ["C06_grant_edges", "C06_only_grants_use_publishers"]
+    theorems = ["C06_grant_edges", "C06_only_grants_use_publishers", "C06_certified_by_grants_alone"]
     rule = ("as C01, with wildcard-audit/trusted entries and publisher records on every crate, dates drawn from a 9-date set "
             "so that start/end/publication days coincide, are adjacent or far apart; non-trivial = some reported path uses a "
             "wildcard or trusted edge or some publisher record is rejected by the window")
@@ -510,7 +511,7 @@ class C05(ResolveSpec):
     design_ref = "DESIGN.md §4 C05"
     coq_files = ["Properties/C05.v"]
     theorems = ["C05_exact_meaning", "C05_closure_is_least", "C05_reorder_duplicate", "C05_replace_by_closure",
-                "C05_replace_by_minimal", "C05_minimal_has_no_implied_duplicates", "C05_edges_use_closure", "C05_verdict_invariant_under_rewriting", "C05_verdict_invariant_reorder_duplicate", "C05_verdict_invariant_closure", "C05_verdict_invariant_minimal"]
+                "C05_replace_by_minimal", "C05_minimal_has_no_implied_duplicates", "C05_edges_use_closure", "C05_verdict_invariant_under_rewriting", "C05_verdict_invariant_under_policy_rewriting", "C05_verdict_invariant_store_and_policy", "C05_verdict_invariant_reorder_duplicate", "C05_verdict_invariant_closure", "C05_verdict_invariant_minimal"]
     rule = ("criteria tables with 2-4 custom criteria (chains, diamonds, customs implying built-ins); every base store is paired with "
             "rewritten stores (all non-violation lists replaced by their closure / minimal set / shuffled+duplicated; records for a "
             "crate outside the graph added); non-trivial = the base store has a custom criterion with a non-empty implies list and a "
@@ -694,6 +695,11 @@ class C04(ResolveSpec):
     def gen_cases(self, rng, n):
         cases = []
         for i in range(n):
+            if i % 5 == 4:
+                # unlocked: live peers; a violation against an audit a peer serves but imports.lock does not hold yet
+                c = gen.boost_fresh_peer_vs_violation(rng, gen.gen_unlocked_case(rng, f"g{i}", p_violation=0.3))
+                cases.append(c)
+                continue
             c = gen.gen_resolve_case(rng, f"g{i}", p_violation=0.5)
             if i % 2:
                 gen.boost_grants(rng, c)
@@ -1214,7 +1220,8 @@ class C16(SimpleSpec):
     coq_files = ["Properties/C16.v"]
     theorems = ["C16_audits_are_the_tagged_union", "C16_wildcards_are_the_tagged_union", "C16_nothing_non_importable",
                 "C16_provenance_tag", "C16_definition_conflict_iff", "C16_errors_persist",
-                "C16_importing_the_aggregate_gives_the_same_verdict", "C16_verdict_depends_only_on_the_record_sets"]
+                "C16_importing_the_aggregate_gives_the_same_verdict", "C16_verdict_depends_only_on_the_record_sets",
+                "C16_entry_means_the_same_in_the_aggregate", "C16_wildcard_means_the_same_in_the_aggregate"]
     level_text = ("Theorems about the model of do_aggregate_audits for every finite list of sources: per crate the output audits are "
                   "exactly the importable audits of the sources in source order, each with the source appended to its aggregated-from "
                   "chain (likewise wildcard audits / trusted entries), nothing non-importable gets in; merging a further definition of "
@@ -1222,10 +1229,11 @@ class C16(SimpleSpec):
                   "implies, and errors persist (no output on error). Verdict equivalence (proofs/RecordSets.v, all graphs / tables / "
                   "stores): the resolver's verdict depends only on the set of records each crate has — not on their grouping into "
                   "peers, order, duplicates, freshness marks or provenance tags — hence a store holding all imported entries of a "
-                  "crate as ONE peer list (the aggregate) has the verdict of the store with one list per source. PARTIAL: that an "
-                  "entry's criteria close to the same set under the merged criteria table as under its own source's table, and 'the "
-                  "output is a loadable audits file', are exercised on the implementation (two-stage metamorphic run through "
-                  "mock_online + resolve; re-parse of the written TOML), not proved.")
+                  "crate as ONE peer list (the aggregate) has the verdict of the store with one list per source; and "
+                  "(proofs/EmbedProofs.v) when the merged criteria table defines every source criterion as its source does "
+                  "(`embeds`, evaluated on the table the REAL aggregate wrote, every case) an entry imported from the aggregate "
+                  "under the same criteria-map IS the entry imported from its source. PARTIAL: 'the output is a loadable audits "
+                  "file' is exercised on the implementation (re-parse of the written TOML), as is the end-to-end two-stage run.")
     level_note = ("Entries are opaque ids in the model (content is carried through unchanged by the code); the same routine serves "
                   "multi-URL imports (C07_multi_url_is_union).")
     design_ref = "DESIGN.md §4 C16"
@@ -1248,6 +1256,28 @@ class C16(SimpleSpec):
 
     def canon(self, text):
         return canon_agg(text)
+
+    def post_oracle(self, bycase, obs):
+        """the hypothesis of C16_entry_means_the_same_in_the_aggregate, on the table the REAL aggregate wrote: every source's
+        criteria table embeds into it (each criterion defined there exactly as in its source)"""
+        import agg_embed
+        exprs = []
+        for cid, o in obs.items():
+            if o["status"] == "ok" and "model_input" in o:
+                exprs += agg_embed.exprs(cid, o)
+        if not exprs:
+            return []
+        work = os.path.join(vetlib.BUILD, "run", "C16-embed")
+        model = vetlib.run_model(exprs, vetlib.fresh_dir(work), ["Base", "Extracted", "Show", "Criteria", "EmbedProofs"])
+        out = []
+        for eid, _ in exprs:
+            m = model.get(eid, "MODEL-ERROR")
+            cid = eid.split("#")[0]
+            if m.startswith("MODEL-ERROR") or " 0" in m:
+                out.append({"id": cid, "what": "the criteria table of the aggregate does not define every source criterion as its source does "
+                            f"(embeds = {m[:80]})", "finding": None, "case": gen.strip_struct(bycase[cid])})
+        self.embed_checked = len(exprs)
+        return out
 
     def nontrivial(self, case, o, c):
         return len(case.get("sources", [])) >= 2
@@ -1572,6 +1602,14 @@ def dangling_present(case, site):
     return False
 
 
+def peer_nd_present(case, url):
+    """the served peer file (as finally generated) still defines `peer-nd` without description, and the configuration maps it"""
+    text = (case.get("peers") or {}).get(url, "")
+    cfg = (case.get("store") or {}).get("config", "")
+    m = re.search(r"\[criteria\.peer-nd\]\n((?:[^\[\n][^\n]*\n)*)", text)
+    return bool(m) and "description" not in m.group(1) and "peer-nd" in cfg
+
+
 def table_fault_present(case, kind):
     """is the injected table fault still in the store as generated?  (a later fault may have deleted the definition)"""
     crit = (case.get("store_struct") or {}).get("criteria")
@@ -1699,6 +1737,8 @@ class C15(SimpleSpec):
                     out.append(f"a reference to an undefined criterion ({f['site']}) was not refused and reached the resolver")
                 if f["kind"] in ("table-cycle", "table-shadow") and table_fault_present(case, f["kind"]):
                     out.append(f"an ill-formed criteria table ({f['kind']}) was accepted")
+                if f["kind"] == "peer-criterion-no-description" and not locked and peer_nd_present(case, f["url"]):
+                    out.append("a peer criterion that the import maps but that has neither a description nor a description-url was accepted")
         return out
 
 
@@ -1936,7 +1976,8 @@ class C19(Spec):
     design_ref = "DESIGN.md §4 C19"
     rule = ("generated archives: 2-6 benign files plus (55%) 1-3 hostile entries (the marker itself at top level or nested, `../x`, "
             "`prefix/../x`, absolute paths, another crate's directory, a sibling directory sharing the prefix string, symlink-then-file "
-            "through it, hard link, duplicate entry, size field larger than the data, empty dir), 70% truncated at a random byte offset "
+            "through it, hard link, duplicate entry, size field larger than the data, empty dir, entries whose real name travels in a GNU "
+            "long-name or PAX path record — hostile (sibling crate, `..`, the marker) and honest (paths over 100 bytes)), 70% truncated at a random byte offset "
             "or block boundary; each case: fetch the cut archive, retry with the intact one, then a reference unpack into a fresh "
             "directory; non-trivial = a hostile entry or a cut")
     projection_doc = ("for every uncut fetch of a case (the first attempt when the archive is intact, the retry from the tree the first "
@@ -1999,7 +2040,7 @@ class C19(Spec):
             ref_ok = steps[2]["result"] == "ok"
             dist[tuple(s["result"].split()[0] for s in steps)] += 1
             if case.get("truncate_at") or any(e["path"].startswith(("..", "/")) or ".." in e["path"] or e["path"].endswith(".cargo-ok")
-                                               or e.get("kind") in ("symlink", "hardlink") for e in case["entries"]):
+                                               or e.get("kind") in ("symlink", "hardlink") or e.get("long_name") for e in case["entries"]):
                 nontrivial += 1
 
             def fail(what):
@@ -2057,10 +2098,11 @@ class C19(Spec):
         prefix = nid(pre)
         ar = []
         for e in case["entries"]:
+            real = e.get("long_name") or e["path"]       # the name the archive reader reports for the entry
             comps = [{"_c": "CParent", "a": []} if c == ".." else {"_c": "CNormal", "a": [nid(c)]}
-                     for c in e["path"].split("/") if c not in ("", ".")]
+                     for c in real.split("/") if c not in ("", ".")]
             kind = {"file": "EFile", "dir": "EDir"}.get(e.get("kind", "file"), "ELink")
-            ar.append({"_c": "Build_entry", "a": [e["path"].startswith("/"), comps, {"_c": kind, "a": []},
+            ar.append({"_c": "Build_entry", "a": [real.startswith("/"), comps, {"_c": kind, "a": []},
                                                   cid_of("file:" + e.get("content", "")[:40])]})
 
         def fs_of(tree, drop_crate=False):
@@ -2117,7 +2159,7 @@ class HistorySpec(Spec):
         return []
 
     def gen_cases(self, rng, n):
-        return [gen.gen_history(rng, f"h{i}") for i in range(n)]
+        return [gen.scenario_unpublished_vs_peer(f"sc{k}", k) for k in range(3)] + [gen.gen_history(rng, f"h{i}") for i in range(n)]
 
     def run(self, rng, tier, work, model_ok=True, ncases=None, replay=None):
         n = ncases or (self.quick_n if tier == "quick" else self.thorough_n)
@@ -2160,7 +2202,7 @@ class C10(HistorySpec):
     pid = "C10"
     oracle_fn = staticmethod(hist.oracle_c10)
     coq_files = ["Properties/C10.v"]
-    theorems = ["C10_update_preserves_vetting", "C10_prune_preserves", "C10_regenerate_imports_preserves", "C10_certify_cleanup_preserves",
+    theorems = ["C10_update_preserves_vetting", "C10_certify_preserves_vetting", "C10_prune_preserves", "C10_regenerate_imports_preserves", "C10_certify_cleanup_preserves",
                 "C10_trust_cleanup_preserves", "C10_import_cleanup_preserves", "C10_init_and_regenerate_certify",
                 "C10_regenerate_search_never_fails", "C10_prune_keeps_required_entries", "C10_failing_crate_keeps_stored_imports"]
     level_text = ("END-TO-END theorems: vets s -> vets (k s) for k = prune with all 8 flag combinations, regenerate imports, the "
@@ -2180,13 +2222,15 @@ class C10(HistorySpec):
 
 class C11(HistorySpec):
     pid = "C11"
+    compare_user_commands = True
     oracle_fn = staticmethod(hist.oracle_c11)
     coq_files = ["Properties/C11.v"]
     theorems = ["C11_updates_shape", "C11_local_audits_only_removed", "C11_no_audits_flag", "C11_imported_audits_from_live",
                 "C11_imported_wildcards_from_live", "C11_publishers_from_live", "C11_unpublished_from_live",
                 "C11_exemptions_only_narrowed", "C11_no_exemptions_flag", "C11_modes_that_may_add_exemptions",
                 "C11_updates_never_widen_what_is_certified", "C11_check_never_widens", "C11_prune_never_widens",
-                "C11_regenerate_imports_never_widens", "C11_cleanups_never_widen"]
+                "C11_regenerate_imports_never_widens", "C11_cleanups_never_widen",
+                "C11_trust_changes_one_entry", "C11_trusted_criteria_mean_the_request"]
     level_text = ("Theorems about the model of get_store_updates, for every store, graph and update mode: local audits are only "
                   "removed (untouched with --no-audits); every imports.lock entry written is an element of the live set with its "
                   "freshness flag cleared; local wildcard audits and trusted entries are never part of an update; outside "
@@ -2196,11 +2240,18 @@ class C11(HistorySpec):
                   "(modes re-read from main.rs). At the level of meaning (proofs/NeverWidens.v): for every crate, criterion and version — in "
                   "the graph or not — whatever the updated store certifies, the store the command loaded already certified "
                   "(C11_updates_never_widen_what_is_certified, instantiated for check, prune × 8 flag sets, regenerate imports and the "
-                  "clean-ups after certify / trust / import).")
-    level_note = ("as C09. What the user's own entry adds (certify, add-exemption, ...) is outside the update model and is checked "
-                  "by the semantic-diff oracle on the real files around every command.")
+                  "clean-ups after certify / trust / import). Of the user-requested changes, `trust` has logic of its own and is "
+                  "modelled (UserCommands.v): exactly one trusted entry of the crate changes — a new one for the request, or an "
+                  "existing one of the same publisher and (cleaned-up) criteria whose window lay inside the requested one — and the "
+                  "criteria written mean the request.")
+    level_note = ("as C09. `trust` steps with an explicit window are also run through the model and compared with the trusted table "
+                  "the real command wrote. What the user's own entry adds otherwise (certify, add-exemption, ...) is outside the "
+                  "model and is checked by the semantic-diff oracle on the real files around every command.")
     design_ref = "DESIGN.md §4 C11"
     assumptions = C09.assumptions
+
+    def model_modules_paths(self):
+        return ["ShowUpdate", "ShowUser"]
 
 
 class C13(HistorySpec):
